@@ -146,6 +146,14 @@ func (fa *FA) atomFacts(s *Sym, depth int) []Fact {
 							if sf.param < len(c.Call.Args) {
 								out = append(out, le(a, fa.linSym(lenOf(fa.Sym(c.Call.Args[sf.param])), 0).Add(linConst(sf.c)), fmt.Sprintf("%s guarantees result <= len(arg%d)", fnName(g), sf.param)))
 							}
+						case "le-param":
+							if sf.param < len(c.Call.Args) {
+								out = append(out, le(a, fa.Lin(c.Call.Args[sf.param]), fmt.Sprintf("%s guarantees result <= arg%d", fnName(g), sf.param)))
+							}
+						case "le-param-diff":
+							if sf.param < len(c.Call.Args) && sf.param2 < len(c.Call.Args) {
+								out = append(out, le(a, fa.Lin(c.Call.Args[sf.param]).Sub(fa.Lin(c.Call.Args[sf.param2])), fmt.Sprintf("%s guarantees result <= arg%d - arg%d", fnName(g), sf.param, sf.param2)))
+							}
 						}
 					}
 				}
@@ -189,6 +197,7 @@ func (fa *FA) FactsAtSite(s retSite, extra ...*Lin) []Fact {
 	}
 	facts = append(facts, fa.loopFacts(s.At())...)
 	facts = append(facts, fa.calleeFacts(conds)...)
+	facts = append(facts, fa.entryFacts()...)
 	return fa.closeFacts(facts, extra...)
 }
 
@@ -199,6 +208,7 @@ func (fa *FA) FactsAt(in ssa.Instruction, extra ...*Lin) []Fact {
 	}
 	facts = append(facts, fa.loopFacts(in)...)
 	facts = append(facts, fa.calleeFacts(condsAtInstr(in))...)
+	facts = append(facts, fa.entryFacts()...)
 	return fa.closeFacts(facts, extra...)
 }
 
@@ -246,6 +256,14 @@ func (fa *FA) calleeFacts(conds []Cond) []Fact {
 						out = append(out, le(rl, fa.linSym(lenOf(fa.Sym(call.Call.Args[sf.param])), 0).Add(linConst(sf.c)),
 							fmt.Sprintf("%s success guarantee: result#%d <= len(arg%d)%+d", fnName(g), sf.result, sf.param, sf.c)))
 					}
+				case "le-param":
+					if sf.param < len(call.Call.Args) {
+						out = append(out, le(rl, fa.Lin(call.Call.Args[sf.param]), fmt.Sprintf("%s guarantees result#%d <= arg%d", fnName(g), sf.result, sf.param)))
+					}
+				case "le-param-diff":
+					if sf.param < len(call.Call.Args) && sf.param2 < len(call.Call.Args) {
+						out = append(out, le(rl, fa.Lin(call.Call.Args[sf.param]).Sub(fa.Lin(call.Call.Args[sf.param2])), fmt.Sprintf("%s guarantees result#%d <= arg%d - arg%d", fnName(g), sf.result, sf.param, sf.param2)))
+					}
 				}
 			}
 		}
@@ -258,6 +276,7 @@ type retFact struct {
 	result int
 	param  int
 	c      int64
+	param2 int
 }
 
 var retSummaryCache = map[*ssa.Function][]retFact{}
@@ -346,7 +365,7 @@ func (p *Prog) retSummary(g *ssa.Function) []retFact {
 			}
 		}
 		if best >= 0 {
-			out = append(out, retFact{"ge-const", i, 0, best})
+			out = append(out, retFact{"ge-const", i, 0, best, 0})
 		}
 		for j, prm := range g.Params {
 			if _, ok := prm.Type().Underlying().(*types.Slice); !ok {
@@ -354,7 +373,31 @@ func (p *Prog) retSummary(g *ssa.Function) []retFact {
 			}
 			pl := fa.linSym(lenOf(fa.Sym(prm)), 0)
 			if holds(func(l *Lin) *Lin { return l.Sub(pl) }) {
-				out = append(out, retFact{"le-len-param", i, j, 0})
+				out = append(out, retFact{"le-len-param", i, j, 0, 0})
+			}
+		}
+		// relations between the result and the integer parameters: result <= p_j, result <= p_j - p_k
+		var ips []int
+		for j, prm := range g.Params {
+			if _, _, ok := intBits(prm.Type()); ok {
+				ips = append(ips, j)
+			}
+		}
+		if len(ips) <= 4 {
+			for _, j := range ips {
+				pj := fa.Lin(g.Params[j])
+				if holds(func(l *Lin) *Lin { return l.Sub(pj) }) {
+					out = append(out, retFact{"le-param", i, j, 0, 0})
+				}
+				for _, k := range ips {
+					if k == j {
+						continue
+					}
+					pk := fa.Lin(g.Params[k])
+					if holds(func(l *Lin) *Lin { return l.Sub(pj.Sub(pk)) }) {
+						out = append(out, retFact{"le-param-diff", i, j, 0, k})
+					}
+				}
 			}
 		}
 	}
@@ -805,5 +848,81 @@ func pruneRows(rows []*Lin) []*Lin {
 	for _, k := range order {
 		out = append(out, best[k])
 	}
+	return out
+}
+
+// ---- caller-derived preconditions of unexported helpers -------------------------------------------------------------
+//
+// For an unexported function all of whose uses are plain static calls (so the call sites describe every execution),
+// simple relations between its integer parameters that hold at EVERY call site may be assumed inside it:
+//
+//	0 <= p_i,   p_i <= 2^40,   p_i <= p_j.
+//
+// Each candidate is proved at each call site from the facts valid there (arguments substituted). This lets an
+// extracted arithmetic helper (e.g. a clamp on int64 offsets) be analysed under the guards its callers established.
+var entryFactsBusy = map[*ssa.Function]bool{}
+
+func (fa *FA) entryFacts() []Fact {
+	if fa.entryDone {
+		return fa.entry
+	}
+	fn := fa.Fn
+	if entryFactsBusy[fn] {
+		return nil
+	}
+	entryFactsBusy[fn] = true
+	defer delete(entryFactsBusy, fn)
+	fa.entryDone = true
+	if fn.Parent() != nil || fn.Signature.Recv() != nil && false {
+		return nil
+	}
+	var ips []int
+	for j, prm := range fn.Params {
+		if _, _, ok := intBits(prm.Type()); ok {
+			ips = append(ips, j)
+		}
+	}
+	if len(ips) == 0 || len(ips) > 4 {
+		return nil
+	}
+	sites, exact := fa.P.staticCallSites(fn)
+	if !exact || len(sites) == 0 || len(sites) > 6 {
+		return nil
+	}
+	holdsAtAll := func(mk func(cfa *FA, args []ssa.Value) *Lin) bool { // goal <= 0
+		for _, c := range sites {
+			if c.Parent() == fn {
+				return false // recursion: no induction attempted
+			}
+			cfa := fa.P.FA(c.Parent())
+			goal := mk(cfa, c.Call.Args)
+			facts := withMagnitudes(cfa.FactsAt(c, goal), goal)
+			if !Entails(facts, goal) && !cfa.entailsPhiSplit(c, facts, goal, linConst(0), 2) {
+				return false
+			}
+		}
+		return true
+	}
+	var out []Fact
+	for _, i := range ips {
+		i := i
+		pi := fa.Lin(fn.Params[i])
+		if holdsAtAll(func(cfa *FA, args []ssa.Value) *Lin { return cfa.Lin(args[i]).Scale(-1) }) {
+			out = append(out, le(linConst(0), pi, fmt.Sprintf("precondition proved at all %d call sites: %s >= 0", len(sites), fn.Params[i].Name())))
+		}
+		if holdsAtAll(func(cfa *FA, args []ssa.Value) *Lin { return cfa.Lin(args[i]).Sub(linConst(int64(1) << 40)) }) {
+			out = append(out, le(pi, linConst(int64(1)<<40), fmt.Sprintf("precondition proved at all %d call sites: %s <= 2^40", len(sites), fn.Params[i].Name())))
+		}
+		for _, j := range ips {
+			if i == j {
+				continue
+			}
+			j := j
+			if holdsAtAll(func(cfa *FA, args []ssa.Value) *Lin { return cfa.Lin(args[i]).Sub(cfa.Lin(args[j])) }) {
+				out = append(out, le(pi, fa.Lin(fn.Params[j]), fmt.Sprintf("precondition proved at all %d call sites: %s <= %s", len(sites), fn.Params[i].Name(), fn.Params[j].Name())))
+			}
+		}
+	}
+	fa.entry = out
 	return out
 }
